@@ -50,7 +50,10 @@ func implViolation(tag string, desc any) {
 	fmt.Printf("IMPL-VIOLATION tag=%s %s\n", tag, b)
 }
 
-func sha(b []byte) string { h := sha256.Sum256(b); return hex.EncodeToString(h[:]) }
+// exploration counters (printed as STAT lines; these are samples, not proof obligations)
+var nSha, nTarsRead, nTarEntries, nLayouts int
+
+func sha(b []byte) string { nSha++; h := sha256.Sum256(b); return hex.EncodeToString(h[:]) }
 
 // ---- layers ----------------------------------------------------------------
 
@@ -103,6 +106,7 @@ type tarEntry struct {
 
 // readTar reads every member with archive/tar; returns what was reachable and the error (nil at a clean EOF).
 func readTar(raw []byte) ([]tarEntry, error) {
+	nTarsRead++
 	br := bytes.NewReader(raw)
 	tr := tar.NewReader(br)
 	var es []tarEntry
@@ -119,6 +123,7 @@ func readTar(raw []byte) ([]tarEntry, error) {
 		if err != nil {
 			return es, fmt.Errorf("reading %s: %w", h.Name, err)
 		}
+		nTarEntries++
 		es = append(es, tarEntry{Name: h.Name, Size: h.Size, DataOff: off, Data: d})
 	}
 }
@@ -270,6 +275,12 @@ type bundleObs struct {
 func runBundle(dir string, b *built, archs, tags []string, desc *bundleDesc) (obs bundleObs, err error) {
 	out := filepath.Join(dir, "bundle.tar")
 	_ = os.Remove(out)
+	if strings.HasPrefix(desc.Note, "stale") {
+		// BuildIndex opens the output without O_TRUNC: a longer file left by an earlier run
+		if err := os.WriteFile(out, bytes.Repeat([]byte("stale bundle bytes "), 4000), 0o644); err != nil {
+			return obs, err
+		}
+	}
 	defer os.Remove(out)
 	fail := func(tag, what string) {
 		implViolation(tag, map[string]any{"archs": archs, "tags": tags, "layers_per_image": desc.Layers, "what": what, "manifest_json_len": desc.ManifestLen})
@@ -522,12 +533,15 @@ func bundleStage(dir string, seed uint64, tier string) error {
 	if _, err := add([]string{"amd64", "arm64"}, tagsOfLen(33), 1, false, true, "docker manifest list"); err != nil {
 		return err
 	}
+	if _, err := add([]string{"amd64"}, tagsOfLen(5), 1, false, false, "stale: output file already exists and is longer than the bundle"); err != nil {
+		return err
+	}
 	covered := 0
 	for range residues {
 		covered++
 	}
 	zero := residues[0]
-	fmt.Printf("STAT {\"bundle_manifest_json_residues_covered\": %d, \"bundle_cases_with_residue_0\": %d}\n", covered, zero)
+	fmt.Printf("STAT {\"bundle_manifest_json_residues_covered\": %d, \"bundle_cases_with_residue_0\": %d, \"exploration_bundles_reread_with_archive_tar\": %d, \"exploration_tar_entries_read\": %d, \"exploration_sha256_recomputed\": %d}\n", covered, zero, nTarsRead, nTarEntries, nSha)
 	if zero == 0 {
 		return fmt.Errorf("bundle stage: no case with len(manifest.json) %% 512 == 0 was produced — the tag length solver no longer hits the boundary")
 	}
